@@ -19,6 +19,8 @@ done
 # the changes written by independent sub-agents (seeded/<name>/patch.diff) against the check of their own property
 for patch in seeded/*/patch.diff; do
   name="$(basename "$(dirname "$patch")")"
+  # a seed whose lines were later changed by a repair of /repo carries a version rebased onto the current tree
+  [ -f "seeded/$name/patch_rebased.diff" ] && patch="seeded/$name/patch_rebased.diff"
   t="$(echo "$name" | cut -c1-3)"
   line="$(tools/mutant.sh "$patch" "$t" 2>&1 | tail -1)"
   case "$line" in
